@@ -11,7 +11,11 @@ E3 crash-point enumeration (DESIGN 2.3 / 4 C14) on the real ``openfilter.filter_
     x       the reader process stops between two operations, restart with the same head
     S1 St S3  the reader process stops inside write_head(): after the temp file was created / in the middle of the
             write / after the temp file is complete and closed but before the rename; then restart
-  At most 2 (quick) / 3 (thorough) crash operations (x, S*) per history.
+    a       (reduced alphabets) reader read() until None
+    D / O   (reduced alphabets) external deletion of the newest / oldest log file while another one survives
+  At most 2 (quick) / 3 (thorough) crash operations (x, S*) per history.  Besides the general configurations there are two
+  targeted ones (plans()): 'shrinking-offsets' (saved positions whose JSON text gets shorter: offset 100, then offset 4 in
+  the next file) and 'external-deletion' (alphabet W a s c x D O, searched deeper, crash = x).
 * Crash points: at EVERY state reached (every history), write_head() and close() are each run with a crash injected
   before every file-system operation they make, after the last one, and inside every write at every proper prefix of
   its bytes.  The operations are found by tracing, not assumed: rolllog's module-level names ``open`` and ``os`` are
@@ -19,11 +23,16 @@ E3 crash-point enumeration (DESIGN 2.3 / 4 C14) on the real ``openfilter.filter_
   is closed; the shim's file object does the same, so the order of system calls is the real one: open, write, close,
   rename) / close / os.rename / os.replace / os.unlink / os.remove / os.fsync through one counting choke point which can
   stop the "process" (raises a BaseException; every later call of the dead process is a no-op).  After each crash
-  point a new reader is constructed from what is on disk, checked, drained to the end of the log, and the head and
-  temp files are put back for the next crash point (write_head() does not change the reader object; asserted).
+  point a new reader is constructed from what is on disk, checked, drained to the end of the log; then (write_head(): all
+  operation boundaries and the longest torn prefix) that incarnation shuts down cleanly - a completed save over
+  whatever the crash left behind - and one more reader is constructed and checked; finally the head and temp files are
+  put back for the next crash point (write_head() does not change the reader object; asserted).  os.open / os.write /
+  os.close / os.ftruncate on descriptors opened for writing go through the same choke point.
 * Oracle (DESIGN 4 C14): the restart never raises; with c = position of the last completed save (start if none),
   i = position of the interrupted save, resolve(p) = p if its file exists else the beginning of the oldest surviving
-  newer file: tell() after restart is resolve(c) or resolve(i), nothing else.  Over all incarnations: when a record is
+  newer file: tell() after restart is resolve(c) or resolve(i), nothing else (where the saved file is gone and nothing
+  newer survives - external deletion of the newest file - DESIGN prescribes no position: only the clauses that follow
+  apply, a symbolic ('end', n) counts as "after everything written so far").  Over all incarnations: when a record is
   delivered, every earlier record whose file is still on disk has been delivered by this or an earlier incarnation
   (nothing skipped); a record delivered again lies at or after c (only the unsaved tail is repeated); within one
   incarnation nothing is repeated; a drained reader has delivered every record that is still on disk.
@@ -187,6 +196,7 @@ class OsProxy:
 
     def __init__(self, shim):
         self._shim = shim
+        self._fds  = {}    # descriptors opened for writing while armed -> path
 
     def __getattr__(self, name):
         return getattr(os, name)
@@ -204,7 +214,55 @@ class OsProxy:
         return self._shim.op('remove', path, lambda: os.remove(path, **kw))
 
     def fsync(self, fd):
-        return self._shim.op('fsync', f'fd{fd}', lambda: os.fsync(fd))
+        return self._shim.op('fsync', self._fds.get(fd, f'fd{fd}'), lambda: os.fsync(fd))
+
+    def fdatasync(self, fd):
+        return self._shim.op('fsync', self._fds.get(fd, f'fd{fd}'), lambda: os.fdatasync(fd))
+
+    # descriptor-level writing (a save protocol may use os.open / os.write / os.close instead of a file object)
+
+    def open(self, path, flags, *args, **kw):
+        if not self._shim.active or not flags & (os.O_WRONLY | os.O_RDWR | os.O_CREAT | os.O_TRUNC | os.O_APPEND):
+            return os.open(path, flags, *args, **kw)
+
+        def do():
+            fd = os.open(path, flags, *args, **kw)
+
+            self._fds[fd] = path
+
+            return fd
+
+        return self._shim.op('open', path, do)
+
+    def write(self, fd, data):
+        if fd not in self._fds:
+            return os.write(fd, data)
+
+        data = bytes(data)
+
+        return self._shim.op('write', self._fds[fd], lambda: os.write(fd, data), data, lambda p: os.write(fd, data[:p]))
+
+    def ftruncate(self, fd, length):
+        return self._shim.op('truncate', self._fds.get(fd, f'fd{fd}'), lambda: os.ftruncate(fd, length))
+
+    def truncate(self, path, length):
+        return self._shim.op('truncate', path, lambda: os.truncate(path, length))
+
+    def close(self, fd):
+        path = self._fds.get(fd)
+
+        if path is None:
+            return os.close(fd)
+
+        try:
+            return self._shim.op('close', path, lambda: os.close(fd))
+
+        finally:
+            if self._fds.pop(fd, None) is not None and self._shim.dead:   # the kernel closes the descriptors of a dead process
+                try:
+                    os.close(fd)
+                except OSError:
+                    pass
 
 
 _shim = None
@@ -248,7 +306,14 @@ class Model(c13.Model):
 
         return m     # files / records are shared: the clone is only used for reading, the writer does not move meanwhile
 
+    ANY = ('*', 0)   # resolve(): DESIGN does not say where a position resolves to; only the behavioural clauses apply
+
     def resolve(self, pos):
+        """DESIGN 4 C14: pos if its file still exists, else the beginning of the oldest surviving file newer than it.  When the
+        file is gone and nothing newer survives (external deletion of the newest file), or the saved text is no file name
+        at all, nothing is prescribed: ANY - the restart is then held only to "skips nothing on disk, repeats nothing
+        before the last completed save"."""
+
         alive = sorted(self.alive(), key=lambda f: f.ts)
 
         if pos is None or pos[0] == 'start':
@@ -258,13 +323,27 @@ class Model(c13.Model):
             if f.name == pos[0]:
                 return tuple(pos)
 
-        ts = int(pos[0][:16])
+        try:
+            ts = int(pos[0][:16])
+        except ValueError:
+            return self.ANY
 
         for f in alive:
             if f.ts > ts:
                 return (f.name, 0)
 
-        return (alive[-1].name, len(alive[-1].content)) if alive else ('start', 0)
+        return self.ANY
+
+    def index_of(self, pos, what):
+        """Record index of a position the reader reports (symbolic 'end' = after everything written so far)."""
+
+        if pos[0] == 'end':
+            return len(self.sizes)
+
+        try:
+            return self.pos_index(pos)
+        except Violation as v:
+            raise Violation('C14/restart-position-wrong', f'{what} {pos!r} is no position in the log: {v.what}')
 
     def on_restart(self, told, c, i):
         self.inc += 1
@@ -273,11 +352,11 @@ class Model(c13.Model):
 
         ok = {self.resolve(c)} | ({self.resolve(i)} if i is not None else set())
 
-        if told not in ok:
+        if told not in ok and self.ANY not in ok:
             raise Violation('C14/restart-position-wrong', f'after restart tell() = {told!r}; allowed: resolve(last completed save '
                 f'{c!r}) or resolve(interrupted save {i!r}) = {sorted(ok)} [{self.describe()}]')
 
-        for y in range(min(self.pos_index(told), len(self.sizes))):
+        for y in range(min(self.index_of(told, 'after restart tell() ='), len(self.sizes))):
             if y not in self.ever and self.files[self.rec_file[y]].gone is None:
                 raise Violation('C14/restart-position-skips-record', f'incarnation {self.inc} starts at {told!r}, past record '
                     f'{chr(65 + y)} which is on disk and was never delivered (last completed save {c!r}, interrupted save {i!r}) '
@@ -319,6 +398,8 @@ class Model(c13.Model):
 
 # ---- executor -------------------------------------------------------------------------------------------------------------
 
+BASE_OPS  = ('w', 'W', 'r', 's', 'c')      # further operations of reduced alphabets: a (read until None), D / O (external
+                                           # deletion of the newest / oldest log file while another one survives)
 CRASH_OPS = {'x': None, 'S1': ('before', 1), 'St': ('torn-first', 0.5), 'S3': ('before-kind', ('rename', 'replace'))}
 
 
@@ -403,6 +484,23 @@ class Exec:
         self.r = None
         self.r = self.open_reader(self.m, self.m.c, i, why)
 
+    def saved(self, m, pos):
+        """A save of `pos` completed.  The head file, if it parses, must say `pos` (whether it parses is the restart's business)."""
+
+        with open(self.head) as f:
+            content = f.read()
+
+        try:
+            parsed = json.loads(content.strip())
+        except ValueError:
+            parsed = list(pos)
+
+        if parsed != list(pos):
+            raise Violation('C14/head-content-wrong', f'after a completed save of {pos!r} the head file holds {content!r}')
+
+        m.c     = pos
+        m.c_idx = m.index_of(pos, 'saved position')
+
     def drain(self, r, m, how):
         nones = 0
 
@@ -464,7 +562,7 @@ class Exec:
         rfile  = self.r.read_file
         i      = tuple(self.r.tell())
 
-        def point(call, plan):
+        def point(call, plan, tail=True):
             self.shim.arm(plan)
 
             try:
@@ -505,6 +603,17 @@ class Exec:
 
                 self.drain(r2, m, f'incarnation after {why}')
 
+                if tail:   # the new incarnation shuts down cleanly (a save over whatever the crash left behind); one more restart
+                    pos = tuple(r2.tell())
+
+                    r2.close()
+
+                    self.saved(m, pos)
+                    self.count('crash_points_followed_by_clean_save_and_restart')
+
+                    r2 = None
+                    r2 = self.open_reader(m, pos, None, f'a clean close() at {pos!r} of the incarnation that followed: {why}')
+
             finally:
                 self.abandon(r2)
                 self.put_state_files(backup)
@@ -528,7 +637,7 @@ class Exec:
             if kind == 'write' and n:
                 for p in range(1, n) if full else sorted({1, n // 2, n - 1}):
                     if 0 < p < n:
-                        point('write_head', ('torn', j, p))
+                        point('write_head', ('torn', j, p), tail=p == n - 1)
 
             j += 1
 
@@ -538,7 +647,7 @@ class Exec:
         nops = j
 
         for j in range(nops):
-            crashed, trace = point('close', ('before', j))
+            crashed, trace = point('close', ('before', j), tail=False)
 
             if not crashed:
                 raise RuntimeError('harness: close() makes fewer file-system operations than write_head()')
@@ -548,10 +657,10 @@ class Exec:
             if kind == 'write' and n:
                 for p in sorted({1, n // 2, n - 1}):
                     if 0 < p < n:
-                        point('close', ('torn', j, p))
+                        point('close', ('torn', j, p), tail=False)
 
         if nops:
-            crashed, trace = point('close', ('after', nops - 1))
+            crashed, trace = point('close', ('after', nops - 1), tail=False)
 
             if not crashed:
                 raise RuntimeError('harness: close() did not reach the last file-system operation of the save')
@@ -559,10 +668,11 @@ class Exec:
     # -- enabled operations / one operation
 
     def enabled(self):
-        ops = ['w', 'W', 'r', 's', 'c']
+        cfg = self.cfg
+        ops = [op for op in cfg.get('ops', BASE_OPS) if op not in ('D', 'O') or len(self.snap) >= 2]
 
-        if self.m.crashes < self.cfg['crashes']:
-            ops += list(CRASH_OPS)
+        if self.m.crashes < cfg['crashes']:
+            ops += list(cfg.get('crash_ops', CRASH_OPS))
 
         return ops
 
@@ -586,6 +696,23 @@ class Exec:
             except Violation as v:
                 raise Violation('C14/writer-' + v.sig.split('/', 1)[1], v.what)
 
+        elif op == 'a':
+            for _ in range(64):
+                n = len(m.now)
+
+                self.step('r')
+
+                if len(m.now) == n:
+                    break
+
+        elif op in ('D', 'O'):
+            name = sorted(self.snap)[-1 if op == 'D' else 0]
+
+            os.unlink(os.path.join(self.dir, name))
+            m.on_delete(name)
+
+            self.snap = {k: v for k, v in self.snap.items() if k != name}
+
         elif op == 'r':
             out = self.r.read()
 
@@ -605,15 +732,7 @@ class Exec:
             else:
                 self.r.close()
 
-            with open(self.head) as f:
-                content = f.read()
-
-            if content != json.dumps(pos) + '\n' or os.path.exists(self.head + '.tmp'):
-                raise Violation('C14/head-content-wrong', f'after a completed save of {pos!r} the head file holds {content!r} '
-                    f'(temp file present: {os.path.exists(self.head + ".tmp")})')
-
-            m.c     = pos
-            m.c_idx = m.pos_index(pos)
+            self.saved(m, pos)
 
             if op == 'c':
                 self.r = None
@@ -634,7 +753,7 @@ class Exec:
                 try:
                     self.r.write_head()
 
-                    m.c, m.c_idx, i = i, m.pos_index(i), None   # protocol without that operation: the save completed
+                    m.c, m.c_idx, i = i, m.index_of(i, 'saved position'), None   # protocol without that operation: the save completed
 
                 except Crash:
                     pass
@@ -709,11 +828,26 @@ def plans(tier):
             out.append(({'mode': mode, 'file_size': fs, 'total_size': ts, 'small': 1, 'big': max(2, fs - nl),
                          'crashes': 2 if quick else 3, 'full_torn_depth': -1 if quick else 6}, depth))
 
+    # saved positions whose JSON text gets shorter from one save to the next by more than white space: a 100-byte record fills
+    # the first file (offset 100 after it), 4-byte records follow (offset 4 in the next file).  With a temp file left behind by
+    # a crash, the clean save and the restart that every crash point is followed by (see crash_points) write the shorter text.
+    for mode in ('txt',) if quick else ('txt', 'json'):
+        out.append(({'name': 'shrinking-offsets', 'mode': mode, 'file_size': 100, 'total_size': 1000, 'small': 3, 'big': 99,
+                     'crashes': 2, 'full_torn_depth': -1 if quick else 4}, 5 if quick else 6))
+
+    # external deletion of log files (newest / oldest while another file survives) between saves and restarts: reduced alphabet
+    # (W, a = read until None, s, c, x, D, O), searched deep; the crash points inside a save are enumerated at the states of the
+    # plans above, here a crash is the operation x
+    for mode in ('txt',) if quick else ('txt', 'bin'):
+        out.append(({'name': 'external-deletion', 'mode': mode, 'file_size': 4, 'total_size': 100, 'small': 1, 'big': 4 - (mode != 'bin'),
+                     'crashes': 2, 'full_torn_depth': -1, 'ops': ('W', 'a', 's', 'c', 'D', 'O'), 'crash_ops': ('x',), 'leaf': False},
+                    8 if quick else 9))
+
     return out
 
 
 def cfg_name(cfg):
-    return f'{cfg["mode"]}/fs{cfg["file_size"]}/ts{cfg["total_size"]}/crashes{cfg["crashes"]}'
+    return f'{cfg["mode"]}/fs{cfg["file_size"]}/ts{cfg["total_size"]}/crashes{cfg["crashes"]}' + (f'/{cfg["name"]}' if 'name' in cfg else '')
 
 
 _PLANS = None
@@ -730,11 +864,15 @@ def _expand(item):
     cfg, depth          = _PLANS[ci]
     res                 = []
 
-    v, at, ex = execute(cfg, hist, leaf=True, full=full)
-    leaf      = (None if v is None else (v.sig, v.what), ex.stats, ex.ops)
+    if cfg.get('leaf', True):
+        v, at, ex = execute(cfg, hist, leaf=True, full=full)
+        leaf      = (None if v is None else (v.sig, v.what), ex.stats, ex.ops)
 
-    if v is not None and at != len(hist):
-        raise RuntimeError(f'harness: nondeterministic replay, {cfg} {hist} failed at {at}: {v.sig} {v.what}')
+        if v is not None and at != len(hist):
+            raise RuntimeError(f'harness: nondeterministic replay, {cfg} {hist} failed at {at}: {v.sig} {v.what}')
+
+    else:     # a plan without crash-point enumeration: the state itself was checked when it was reached
+        v, leaf = None, (None, {}, None)
 
     if v is None:
         for op in ops:
@@ -822,7 +960,7 @@ def _run(rep):
 
         for ci, hist, leaf, res, dt in common.pmap_ordered(_expand, items, chunksize=max(1, min(8, len(items) // 256))):
             cpu   += dt
-            nexec += 1
+            nexec += 1 if _PLANS[ci][0].get('leaf', True) else 0
 
             lv, lstats, lops = leaf
 
